@@ -682,7 +682,7 @@ def replay_stage(ctx, sat, unsat_cases):
         ctx.count("replay:proofrec-not-importable")
         return
     plain, clash, near, opaque = make_atoms(T)
-    for i in range(ctx.scale(18, 200)):
+    for i in range(ctx.scale(18, 120)):
         pool = plain if rng.random() < 0.6 else plain[:2] + clash[:3]
         if rng.random() < 0.6:
             F = T.Not(gen_unsat_formula(rng, pool, T, 0.1 if rng.random() < 0.3 else 0.0))
@@ -866,7 +866,7 @@ def zchaff_stage(ctx, sat):
         if probe != ("proved",):
             ctx.count("zchaff:stream-unavailable:%s" % "/".join(str(x) for x in probe))
             return
-        for i in range(ctx.scale(12, 150)):
+        for i in range(ctx.scale(12, 80)):
             pool = plain if rng.random() < 0.7 else plain[:2] + clash[:2]
             F = T.Not(gen_unsat_formula(rng, pool, T, 0.1 if rng.random() < 0.3 else 0.0))
             ctx.case(("zchaff", str(F)), nontrivial=True)
